@@ -82,6 +82,14 @@ KERNELS = [
          outputs=["append:self.rewards", "store:self.current_makespan"],
          model="(cur - Z.max cur e, Z.max cur e)", unfold="",
          props=["C13"]),
+    # the action-space expression inside SingleJobShopGraphEnv.__init__:
+    #   self.action_space = gym.spaces.MultiDiscrete([<nvec...>], start=[<start...>])
+    dict(name="action_space", file="job_shop_lib/reinforcement_learning/_single_job_shop_graph_env.py",
+         cls="SingleJobShopGraphEnv", fn="__init__", assign_target="self.action_space",
+         imports="EnvSpaces", params="(I : instance)", args="I", rtype="list Z * list Z",
+         leaves={"self.instance.num_jobs": ("num_jobs I", "nat"), "self.instance.num_machines": ("num_machines I", "nat")},
+         model="(action_nvec I, action_start)", unfold="action_nvec action_start",
+         props=["C18"]),
 ]
 
 
@@ -210,6 +218,20 @@ def find_function(path, cls, fn):
 
 def translate(k):
     fn = find_function(os.path.join(common.REPO, k["file"]), k["cls"], k["fn"])
+    if "assign_target" in k:
+        tr = Tr(k["leaves"])
+        for st in ast.walk(fn):
+            if isinstance(st, ast.Assign) and len(st.targets) == 1 and ast.unparse(st.targets[0]) == k["assign_target"]:
+                call = st.value
+                if not (isinstance(call, ast.Call) and ast.unparse(call.func).endswith("MultiDiscrete")
+                        and len(call.args) == 1 and isinstance(call.args[0], ast.List)
+                        and len(call.keywords) == 1 and call.keywords[0].arg == "start"
+                        and isinstance(call.keywords[0].value, ast.List)):
+                    raise Untranslatable("unexpected shape of the space expression: " + ast.unparse(call)[:100])
+                nvec = "[" + "; ".join(tr.num(e) for e in call.args[0].elts) + "]"
+                start = "[" + "; ".join(tr.num(e) for e in call.keywords[0].value.elts) + "]"
+                return f"({nvec}, {start})"
+        raise Untranslatable("assignment to " + k["assign_target"] + " not found")
     return Tr(k["leaves"]).body(fn.body, k.get("outputs"))
 
 
@@ -232,6 +254,8 @@ def check_kernels(pid):
         path = os.path.join(d, f"Gen_{pid}_{k['name']}_{os.getpid()}.v")
         unfold = ("gen_k " + k["unfold"]).strip()
         text = HEADER
+        if k.get("imports"):
+            text += f"From JSL Require Import {k['imports']}.\n"
         text += f"Definition gen_k {k['params']} : {k['rtype']} := {body}.\n"
         text += TACTIC % {"unfold": unfold}
         text += f"Lemma gen_k_ok : forall {k['args']}, gen_k {k['args']} = {k['model']}.\nProof. kernel. Qed.\n"
